@@ -109,6 +109,23 @@ Definition c08_redefine_ok (u : universe) (f : fdecl) (b bo : builder) (e : obs_
 Definition c08_callredef_ok (e : obs_err) : bool :=
   match e with ObsUnsat _ _ _ _ _ | ObsMissing | ObsBuild | ObsOtherErr => false | _ => true end.
 
+(* the values the redefined function's call hands to user functions are the
+   supplied ones or results of earlier executions (C01 on the inner call:
+   the original Call with the Redefine options plus the given values) *)
+Definition c08_provenance (u : universe) (prev : list (op * op_obs)) (earlier : list event) (o : op) (ob : op_obs) : Z :=
+  match o, oo_obs ob with
+  | OpCallRedef ref, ObsCallRedef _ given _ _ _ =>
+      match nth_error prev ref with
+      | Some (OpRedefine f d opts, _) =>
+          match build_args d (redefined_opts opts given) with
+          | Some b => if c01_ok u f b earlier (co_of_obs ob) then 0 else 75
+          | None => 0
+          end
+      | _ => 0
+      end
+  | _, _ => 0
+  end.
+
 Definition c08_monitor (u : universe) (prev : list (op * op_obs)) (o : op) (ob : op_obs) : Z :=
   match o, oo_obs ob with
   | OpRedefine f d opts, ObsRedefine e ins =>
@@ -168,6 +185,10 @@ Definition c17_monitor (earlier : list event) (o : op) (ob : op_obs) : Z :=
                    if (l =? len) && Base.eqb os outs then 0 else 70
       | None => 0
       end
+  (* when resolution itself fails the result has length 0 (and an error) *)
+  | OpCall _ _ _, ObsCall (ObsUnsat _ _ _ _ _) len _
+  | OpCall _ _ _, ObsCall ObsMissing len _
+  | OpCall _ _ _, ObsCall ObsBuild len _ => if len =? 0 then 0 else 71
   | _, _ => 0
   end.
 
@@ -179,7 +200,8 @@ Fixpoint monitor2_ops (which : Z) (u : universe) (all : list (op * op_obs)) (ear
   | (o, ob) :: rest =>
       let c := match which with
                | 7 => match o with OpCall f d opts => c07_monitor u f d opts ob | _ => 0 end
-               | 8 => c08_monitor u all o ob
+               | 8 => let c := c08_monitor u all o ob in
+                      if c =? 0 then c08_provenance u all earlier o ob else c
                | 9 => c09_monitor o ob
                | 17 => c17_monitor earlier o ob
                | 4 => match o with
